@@ -1,12 +1,16 @@
 (* AsgiRun.v — wire entry point for the Asgi model.
      asgi.call <cfg> <scope> <recv_id> <send_id> <builder> <eval> <send_fail> <app_exc>
    cfg      = {"mode": <any value>, "add_headers": <bool>}
-   scope    = {<key>: <JSON value>, ...}                 (the dict handed to the middleware)
+   scope    = {<key>: <JSON value>, ...}                 (the dict handed to the middleware, JSON data only)
+            | [[<key>, ["v", <JSON value>] | ["guard"] | ["obj", <int>]], ...]
+                                                         (the same in the answer's notation: an entry may be the
+                                                          middleware's own guard object or another opaque object)
    builder  = null (build_env is None) | ["ret", [<int>...]] | ["notiter"] | ["raise", <class name>]
    eval     = ["ret", {"allowed","effect","reason","rule_id","policy_id": <any value>}] | ["raise", <class name>]
    send_fail= null | [<k>, <class name>]                 (the k-th send call raises)
    app_exc  = null | <class name>                        (the downstream app raises)
-   answer   = {"events": [...], "scope": [[key, ["v", value] | ["guard"]]...], "end": ["returned"] | ["raised", cls] | ["ood"]} *)
+   answer   = {"events": [...], "scope": [[key, ["v", value] | ["guard"] | ["obj", n]]...],
+               "end": ["returned"] | ["raised", cls] | ["ood"]} *)
 From Coq Require Import List Bool String ZArith.
 From Rbacx Require Import Value Wire Asgi.
 Import ListNotations.
@@ -30,9 +34,24 @@ Definition dec_cfg (v : value) : option config :=
   | _ => None
   end.
 
+Definition dec_sval (v : value) : option sval :=
+  match v with
+  | VList [VStr "v"; x] => Some (SV x)
+  | VList [VStr "guard"] => Some SGuard
+  | VList [VStr "obj"; n] => match dec_nat n with Some i => Some (SObj i) | None => None end
+  | _ => None
+  end.
+
+Definition dec_entry (v : value) : option (string * sval) :=
+  match v with
+  | VList [VStr k; x] => match dec_sval x with Some sv => Some (k, sv) | None => None end
+  | _ => None
+  end.
+
 Definition dec_scope (v : value) : option scope :=
   match v with
   | VObj kvs => Some (map (fun kv => (fst kv, SV (snd kv))) kvs)
+  | VList es => opt_all (map dec_entry es)
   | _ => None
   end.
 
@@ -76,7 +95,9 @@ Definition dec_app_exc (v : value) : option (option string) :=
 
 Definition enc_scope (sc : scope) : value :=
   VList (map (fun kv => VList [VStr (fst kv);
-                               match snd kv with SV v => vtag "v" [v] | SGuard => vtag "guard" [] end]) sc).
+                               match snd kv with
+                               | SV v => vtag "v" [v] | SGuard => vtag "guard" [] | SObj n => vtag "obj" [vnat n]
+                               end]) sc).
 
 Definition enc_message (m : message) : value :=
   match m with
